@@ -11,7 +11,7 @@ import traceback
 from datetime import datetime, timedelta
 from typing import Any
 
-from vf.core import Collector, Ctx, hyp_explore
+from vf.core import Collector, Ctx, hyp_explore, jdump
 
 RULE = (
     "Line classes: G1 grammar-valid frames with regex payloads for every (verb, code) of CODES_SCHEMA; G2 lines of the "
@@ -20,7 +20,7 @@ RULE = (
     "char insert/delete/replace incl. non-ASCII); G4 junk (blank, comments, evofw3 chatter, annotations in all "
     "combinations, short lines, Unicode digits, control chars). Each line goes through Packet.from_file, from_port and "
     "from_dict then Message(). Streams: 5-40 lines of one corpus system with 1-6 bad lines at generated positions, "
-    "through FileTransport (text and dict sources). Serial: CRLF-terminated elements (valid, mutant, chatter, "
+    "through FileTransport (text and dict sources), and as {'msg', 'ts'} messages through the real MqttTransport._on_message. Serial: CRLF-terminated elements (valid, mutant, chatter, "
     "undecodable bytes) concatenated and cut at generated positions (single read, 1-byte reads, cut between CR and LF, "
     "empty reads, random cuts). Non-trivial line = not byte-identical to a corpus line and either decoded or was "
     "rejected after passing the structural regex; stream = >= 1 valid line follows a rejected one; partition = >= 1 cut "
@@ -260,8 +260,97 @@ def explore_streams(job: dict) -> dict:
             items.insert(pos, {"dtm": dtm, "line": draw(bad), "bad": True})
         return items
 
-    hyp_explore(stream(), lambda items: check_stream(col, items), job["n"], job["seed"])
+    if job.get("via") == "mqtt":
+        hyp_explore(stream(), lambda items: check_mqtt(col, items), job["n"], job["seed"])
+    else:
+        hyp_explore(stream(), lambda items: check_stream(col, items), job["n"], job["seed"])
     return col.dump()
+
+
+# --- MQTT ingress: the real MqttTransport (paho client stubbed) fed {"msg": <line>, "ts": <iso>} envelopes ------------------
+class _MqttMsg:
+    def __init__(self, topic: str, payload: bytes) -> None:
+        self.topic, self.payload, self.timestamp = topic, payload, 0.0
+
+
+async def _mqtt_run(loop: Any, items: list[dict]) -> dict:
+    import json
+    import types
+
+    import ramses_tx.transport as trmod
+    from ramses_tx.protocol import ReadProtocol
+
+    from vf.env import vclock
+
+    real = trmod.mqtt
+
+    class _Client:
+        def __init__(self, *a: Any, **k: Any) -> None:
+            self.on_connect = self.on_disconnect = self.on_message = None
+
+        def __getattr__(self, name: str) -> Any:  # username_pw_set, connect_async, loop_start, subscribe, publish, ...
+            return lambda *a, **k: None
+
+    trmod.mqtt = types.SimpleNamespace(Client=_Client, MQTTMessage=real.MQTTMessage, MQTTMessageInfo=real.MQTTMessageInfo)
+    msgs: list[Any] = []
+    escapes: list[dict] = []
+    try:
+        proto = ReadProtocol(msgs.append)
+        tr = trmod.MqttTransport("mqtt://u:p@broker.invalid:1883/RAMSES/GATEWAY", proto, disable_sending=True, loop=loop)
+        tr._on_message(tr.client, None, _MqttMsg("RAMSES/GATEWAY/18:006402", b"online"))
+        await vclock.quiesce()
+        for i, it in enumerate(items):
+            env = json.dumps({"msg": it["line"], "ts": it["dtm"]}).encode()
+            try:
+                tr._on_message(tr.client, None, _MqttMsg("RAMSES/GATEWAY/18:006402/rx", env))
+            except Exception as e:  # noqa: BLE001
+                escapes.append({"i": i, "exc": type(e).__name__, "site": _site(e), "text": str(e)[:120], "valueerror": isinstance(e, ValueError)})
+            await vclock.quiesce()
+        tr.close()
+        await vclock.quiesce()
+    finally:
+        trmod.mqtt = real
+    return {"msgs": msgs, "escapes": escapes}
+
+
+def check_mqtt(col: Collector, items: list[dict]) -> None:
+    from vf.env import vclock
+
+    items = [it for it in items if "\n" not in it["line"] and "\r" not in it["line"]]  # one MQTT message carries one line
+    expected = []
+    undatable_or_empty = set()
+    seen_reject = rejected_before_valid = False
+    for i, it in enumerate(items):
+        try:
+            d = datetime.fromisoformat(it["dtm"])
+            if d.tzinfo is not None:
+                d = d.astimezone().replace(tzinfo=None)
+            dtm_s = d.isoformat()
+        except ValueError:
+            undatable_or_empty.add(i)
+            seen_reject = True
+            continue
+        out, det = decode_line(it["line"], "from_file", dtm_s)
+        if out == "msg":
+            expected.append(str(det._pkt))
+            rejected_before_valid |= seen_reject
+        else:
+            seen_reject = True
+            if out == "valueerror-ok":
+                undatable_or_empty.add(i)
+    res, _ = vclock.run(_mqtt_run, items)
+    got = [str(m._pkt) for m in res["msgs"]]
+    case = {"mqtt": [{"dtm": it["dtm"], "line": it["line"]} for it in items]}
+    col.case(nt=jdump(case) if rejected_before_valid else None, classes=["stream:mqtt", "mqtt:valid-after-reject" if rejected_before_valid else "mqtt:plain"],
+             sample={"n_msgs": len(items), "n_bad": sum(1 for i in items if i["bad"])})
+    for e in res["escapes"]:
+        if e["valueerror"] and e["i"] in undatable_or_empty:
+            continue  # the standard value error for an empty or undatable line
+        col.violation({"clause": "exception-escapes", "via": "mqtt", "exc": e["exc"], "site": e["site"]}, case, f"message {e['i']} ({items[e['i']]['line']!r}, ts {items[e['i']]['dtm']!r}): {e['exc']}: {e['text']}")
+        break
+    if got != expected:
+        col.violation({"clause": "stream-differs", "via": "mqtt", "how": "missing" if len(got) < len(expected) else "extra-or-changed"}, case,
+                      f"delivered {len(got)} messages, expected {len(expected)}; first difference at {next((k for k, (a, b) in enumerate(zip(got, expected)) if a != b), min(len(got), len(expected)))}")
 
 
 _KNOWN_NASTY = (
@@ -434,7 +523,7 @@ def run(ctx: Ctx, col: Collector) -> None:
     ctx.rule = RULE
     ctx.assumptions = [
         "OS read sizes are replaced by generated ones; timestamps of serial packets are excluded from comparison (read time by design)",
-        "MQTT ingress is not driven through a broker; its body shares _frame_read with the serial path",
+        "MQTT ingress: the real MqttTransport._on_message is fed well-formed {'msg', 'ts'} envelopes (paho client stubbed, no broker); malformed envelopes (not JSON objects, missing keys) are outside 'a line of text offered as a frame'",
         "reference framing of a log text (universal newlines, strip, skip blank/#, columns 0-25/27+) is part of the oracle",
     ]
     ctx.parallel(explore_lines, ctx.shards(ctx.n(36_000, 1_200_000)), col)
@@ -443,6 +532,7 @@ def run(ctx: Ctx, col: Collector) -> None:
     step = (npairs + k - 1) // k
     ctx.parallel(sweep_pairs, [{"lo": a, "hi": min(a + step, npairs), "per_pair": ctx.n(20, 1200)} for a in range(0, npairs, step)], col)
     ctx.parallel(explore_streams, ctx.shards(ctx.n(2_400, 60_000), per_shard_min=20), col)
+    ctx.parallel(explore_streams, ctx.shards(ctx.n(1_200, 30_000), per_shard_min=20, via="mqtt"), col)
     ctx.parallel(explore_partitions, ctx.shards(ctx.n(640, 16_000), per_shard_min=10), col)
     ctx.floors = [("line:G3", "", 0.2), ("outcome:invalid", "", 0.1), ("outcome:msg", "", 0.2), ("stream:valid-after-reject", "stream:text", 0.5)]
     ctx.extra["verb_code_pairs"] = npairs
